@@ -17,6 +17,14 @@ for i in ids:
     rc = int(m.group(1)) if m else None
     keys = re.findall(r"key=(\S+)", r.stdout)
     print("%-5s rc=%s %4.0fs %s" % (i, rc, time.time() - t, ",".join(keys[:4])), flush=True)
-    if rc != 1:
+    expected_miss = False
+    try:
+        import json
+        expected_miss = "NOT REPORTED" in json.load(open(os.path.join(root, i, "meta.json")))["what_i_ran"]["check_outcome"]
+    except Exception:
+        pass
+    if rc != 1 and not expected_miss:
         missed.append(i)
+    elif rc != 1:
+        print("      (recorded as not reported by this property's check, see meta.json)")
 print("MISSED:", missed)
